@@ -290,7 +290,11 @@ pub fn shard_run(tier: &str, seed: u64, replay_case: Option<usize>, shard: Shard
                     out.errors.push(format!("copy: {e}"));
                     break;
                 }
-                let idlist: Vec<Uuid> = chains.iter().flatten().flat_map(|p| [p.0, p.1]).collect();
+                let mut idlist: Vec<Uuid> = vec![];
+                for p in chains.iter().flatten() {
+                    idlist.push(p.0);
+                    idlist.push(p.1);
+                }
                 let pre = state_with(&main, &runner_clients, &idlist);
                 let mut known_ids = uuids_in(&pre);
                 known_ids.insert(cid.to_string());
